@@ -33,6 +33,7 @@ func drawC07(t *rapid.T) c07Scenario {
 		})
 	}
 	sc.Plan.PauseClose = rapid.Bool().Draw(t, "pauseClose")
+	sc.Plan.CloseTwice = rapid.IntRange(0, 3).Draw(t, "closeTwice") == 0
 	return sc
 }
 
@@ -57,6 +58,12 @@ func execC07(sc c07Scenario) core.Outcome {
 		o.Labels = append(o.Labels, "close:after-first-units")
 	default:
 		o.Labels = append(o.Labels, "close:mid-stream")
+	}
+	if r.ClosedTwice {
+		o.Labels = append(o.Labels, "closed-twice")
+	}
+	if r.SecondClosePanicked {
+		o.Labels = append(o.Labels, "second-close-panicked(outside the statement)")
 	}
 	if r.Paused {
 		o.Labels = append(o.Labels, "close-paused-after-broadcast")
